@@ -78,6 +78,23 @@ def _self_writes(idx, cls, start_methods, depth=4):
   return out
 
 
+def _history_vars(fn):
+  """(dna var, reward var) of the `for <d>, <r> in <history param>` loop of a
+  recover implementation - whatever the loop variables are called."""
+  params = [p for p in A.param_names(fn) if p != 'self']
+  for lp in ast.walk(fn):
+    if not isinstance(lp, ast.For):
+      continue
+    it, tg = lp.iter, lp.target
+    if isinstance(it, ast.Call) and A.call_name(it) == 'enumerate' and it.args and isinstance(tg, ast.Tuple) \
+        and len(tg.elts) == 2:
+      it, tg = it.args[0], tg.elts[1]
+    if isinstance(it, ast.Name) and it.id in params and isinstance(tg, ast.Tuple) and len(tg.elts) == 2 \
+        and all(isinstance(e, ast.Name) for e in tg.elts):
+      return tg.elts[0].id, tg.elts[1].id
+  return 'dna', 'reward'
+
+
 def rule_a(ctx):
   idx = ctx.index
   gens = generators(idx)
@@ -138,8 +155,14 @@ def rule_b(ctx):
            f'live one')
   ev = idx.func('pyglove.ext.evolution.base.Evolution.recover')
   g = C.cfg_of(ev.node)
-  ip = [k for k in g.nodes if k.ast is not None and any(A.call_name(c) == 'init_population.append' for c in k.calls())]
-  t = [k for k in g.nodes if k.kind == 'test' and A.unparse(k.ast) == 'reward is not None']
+  _, RV = _history_vars(ev.node)
+  # the local list handed to the population initializer's recover()
+  ipl = {a.id for c in A.calls_in(ev.node) if (A.call_name(c) or '').endswith('.recover')
+         and (A.call_name(c) or '').startswith('self._init_population') for a in c.args if isinstance(a, ast.Name)}
+  ip = [k for k in g.nodes if k.ast is not None and any(
+      isinstance(c.func, ast.Attribute) and c.func.attr == 'append' and isinstance(c.func.value, ast.Name)
+      and c.func.value.id in ipl for c in k.calls())]
+  t = [k for k in g.nodes if k.kind == 'test' and A.unparse(k.ast) == f'{RV} is not None']
   problems = []
   if not ip or not t:
     problems.append('init_population bookkeeping / reward test not found')
@@ -156,7 +179,7 @@ def rule_b(ctx):
   fb = idx.func('pyglove.ext.evolution.base.Evolution._feedback')
   from sa import surface as S3
   tfb, tev = S3.closure_text(idx, fb), S3.closure_text(idx, ev)
-  same = all('self._population_update(' in t and 'self._population.append(dna)' in t for t in (tfb, tev))
+  same = all('self._population_update(' in t and 'self._population.append(' in t for t in (tfb, tev))
   ctx.ob('C15.b', ev.fq + '#population', same,
          'recovery appends to the population and applies population_update exactly as _feedback does',
          ev.loc, 'population recovery diverged from _feedback')
@@ -319,7 +342,8 @@ def rule_c(ctx):
   idx = ctx.index
   base = idx.func(GEN + '.recover')
   t = A.unparse(base.node, 3000)
-  ok = 'self._num_proposals += 1' in t and 'self._num_feedbacks += 1' in t and 'reward is not None' in t
+  _, RV0 = _history_vars(base.node)
+  ok = 'self._num_proposals += 1' in t and 'self._num_feedbacks += 1' in t and f'{RV0} is not None' in t
   ctx.ob('C15.c', base.fq, ok,
          'the default recover advances the proposal counter per DNA and the feedback counter per '
          'fed-back DNA', base.loc, 'counter bookkeeping changed')
@@ -332,7 +356,7 @@ def rule_c(ctx):
     # on every path of an iteration with `reward is not None`, the feedback
     # counter is advanced (directly, or through self.feedback)
     g = C.cfg_of(m.node)
-    rt = [k for k in g.nodes if k.kind == 'test' and A.unparse(k.ast) == 'reward is not None']
+    rt = [k for k in g.nodes if k.kind == 'test' and A.unparse(k.ast) == f'{_history_vars(m.node)[1]} is not None']
     adv = lambda k: any(A.call_name(cc) in ('self.feedback', 'super().recover') for cc in k.calls()) or (
         k.kind == 'stmt' and isinstance(k.ast, ast.AugAssign) and A.unparse(k.ast.target) == 'self._num_feedbacks')
     if rt:
